@@ -38,7 +38,7 @@ META = {
 
 def units(tier):
     rng = random.Random(seed())
-    specs, _ = small_specs(tier, rng, nrand_quick=100, nrand_thorough=1000)
+    specs, _ = small_specs(tier, rng, nrand_quick=60, nrand_thorough=600, chains_quick=40, chains_thorough=500, fixed_quick=150, fixed_thorough=2000)
     maxtok = 4 if tier == "quick" else 5
     return [{"specs": [s.to_json() for s in ch], "maxtok": maxtok, "seed": seed() * 1000 + i}
             for i, ch in enumerate(chunks(specs, 48))]
@@ -61,7 +61,7 @@ def run_unit(u):
             bump(st["build_errors"], type(e).__name__)
             continue
         num = Numbering(g)
-        base = list(gen.token_strings(spec, u["maxtok"]))
+        base = list(gen.token_strings(spec, u["maxtok"]))[:(120 if u["maxtok"] <= 4 else 400)]
         single = all(k == "str" and len(v) == 1 for k, v in spec.terms.values())
         inputs = list(base) + [t + " " for t in base[::3]] + [t + "?" for t in base[::4]]
         if single:
@@ -93,11 +93,14 @@ def run_unit(u):
                 b = Batch()
                 b.add("grammar", enc_grammar(num))
                 checks = []
+                timeouts = 0
                 for text in inputs:
                     case = {"grammar": gtxt, "parser": pname, "tables": tname, "input": text,
                             "deterministic": det}
+                    if timeouts >= 3:
+                        break      # a parser that keeps diverging is reported once; do not burn the budget
                     try:
-                        with budget(5):
+                        with budget(1.0):
                             p.parse(text)
                         continue
                     except parglare.SyntaxError as e:
@@ -119,6 +122,8 @@ def run_unit(u):
                                     "observed": e.location.start_position, "expected": sorted(tp)})
                         continue
                     except BudgetExceeded:
+                        timeouts += 1
+                        bump(st, "parse_timeouts")
                         if pname == "GLR" or det:
                             res["violations"].append({"kind": "parse-does-not-terminate", "case": case})
                         continue
@@ -173,7 +178,7 @@ def run_unit(u):
                                 "expected": want, "viable_raw_ends": ends})
                     if pos > 0:
                         res["nontrivial"].append(h16(case))
-                    if exp is not None and pos == want and not overlap:
+                    if exp is not None and pos == want and not overlap and len(checks2) < 40:
                         b2.add("input", enc_input(num, GLRParser.__new__(GLRParser) if False else p_for(case, parsers), case["input"]))
                         q = b2.add("nextterms", CHART_FUEL, rmax, real_terms)
                         checks2.append((case, exp, q))
